@@ -120,6 +120,12 @@ CHECKS["C15"] = dict(
     note="EmceeStrategy/TemperedStrategy/CmaStrategy and DDA need absent libraries at construction and are not covered (evidence.not_covered).",
     ref="5 C15")
 
+CHECKS["C13"] = dict(
+    technique="TLA+ spec FitSession.tla (fit / cached-attribute reads / save / load / fit again in every interleaving) model-checked by TLC; the whole dumped graph walked on real objects; per-fit and per-reload observations validated by FitSessionTrace.tla",
+    text="TLC enumerates 16 configurations (NmpfitStrategy / LeastSquaresScipyStrategy x full image / random pixel subset x start at the generating parameters / 0.5-2% away x Mie / MieLens with a fitted lens angle) and every interleaving of a fit, reads of the three lazily cached result attributes (each changes what is serialised), save, load and a second fit with the same objects, to depth 4-5. Every edge is executed on real objects (real fits of a single sphere with x, y, z, radius and scaling free on a 16x16 detector, real HDF5 files). Recorded per fit: parameter names are the model's, fitted = generating parameters (1e-6), misfit not worse than at the guess, parameters within bounds, result.hologram = model.forward at the reported parameters, max_lnprob = lnposterior, model / data / strategy unchanged (serialised text and fingerprints), no per-fit references left on the strategy, second fit identical; per reload: parameters, names, model, strategy, data, hologram and log-probability equal whatever had been cached before saving. A TLC trace spec asserts all clauses.",
+    note="Quick: 8 configurations (alternating with the seed), thorough: all 16 plus 120 further generating parameter sets. Noise-free data; emcee/CMA strategies absent.",
+    ref="5 C13")
+
 NOT_APPLICABLE = []
 
 
